@@ -56,6 +56,11 @@ def parseOp (ws : List String) : Option RepOp :=
   | ["mode", m] => do some (.setMode (← parseMode m))
   | ["setrev", a] => do some (.setRev (← a.toNat?))
   | ["ckpt", s] => some (.setCkpt s)
+  | ["rbbegin", n] => some (.rbBegin n)
+  | ["rbreload"] => some .rbReload
+  | ["lunmap"] => some .lunmap
+  | ["rbpromote"] => some .rbPromote
+  | ["rbend"] => some .rbEnd
   | _ => none
 
 /-- observation requests do not change the state -/
@@ -85,12 +90,22 @@ def observe (r : Rep) (ws : List String) : Option String :=
     some ("data " ++ joinNat ((List.range (r.dd.nb * r.dd.bs)).map fun u => r.dd.live u))
   | _ => none
 
+/-- requests that may be sent while a controller is attached (between `rbbegin` and `rbend`) -/
+def rbAllowed (phase : Nat) : List String :=
+  -- before the swap the source's location map depends on which RW replica served the controller's
+  -- widening reads, so it is not observed
+  if phase = 1 then ["w", "r", "full", "rbreload", "rbend", "punch"]
+  else ["w", "r", "full", "holes", "loc", "meta", "imeta", "apply", "lunmap", "rbpromote", "rbend", "cands", "punch"]
+
 partial def loop (h : IO.FS.Stream) (out : IO.FS.Stream) (r : Rep) : IO Unit := do
   let line ← h.getLine
   if line.isEmpty then return ()
   let ws := (line.trimAscii.toString.splitOn " ").filter (· ≠ "")
   match ws with
   | [] => loop h out r
+  | w :: _ =>
+  if r.rb ≠ 0 ∧ !(rbAllowed r.rb).contains w then do out.putStrLn "inadmissible"; loop h out r else
+  match ws with
   | ["init", a, b] =>
     match a.toNat?, b.toNat? with
     | some bs, some nb => out.putStrLn "ok"; loop h out (Rep.init bs nb)
